@@ -375,3 +375,4 @@ harness!(sd_de_set_in_place__s8_4a, sd_de_set_in_place, S8_4A);
 harness!(sd_de_set_in_place__s8_e, sd_de_set_in_place, S8_E);
 harness!(sd_de_set_in_place__u0, sd_de_set_in_place, U0);
 harness!(sd_de_set_in_place__u4f, sd_de_set_in_place, U4F);
+harness!(sd_de_set_in_place__s8m0_4a, sd_de_set_in_place, S8M0_4A);
